@@ -288,11 +288,16 @@ func main() {
 	}
 	rnd := hx.NewRand(run.Seed ^ 0xc01)
 	tmpRoot := filepath.Join(run.OutDir, "ws")
-	nMem := run.N(1300, 13000)
-	nDisk := run.N(250, 2400)
-	nPlant := run.N(250, 2000)
+	nMem := run.N(1100, 8000)
+	nDisk := run.N(230, 1800)
+	nPlant := run.N(220, 1800)
 	nFam := famCount(run)
-	total := nMem + nDisk + nPlant + nFam
+	// sections E (names family) and F (selection family), targeting.go
+	nNamesMem := run.N(140, 1500)
+	nNamesDisk := run.N(48, 400)
+	nSel := selFamCount(run)
+	total := nMem + nDisk + nPlant + nFam + nNamesMem + nNamesDisk + nSel
+	var cliCases []*cliCase
 	t0 := time.Now()
 	lap := func(name string) {
 		run.Set("seconds:"+name, time.Since(t0).Seconds())
@@ -306,11 +311,39 @@ func main() {
 			lap("A-disk")
 		case nMem + nDisk + nPlant:
 			lap("B-planted")
+		case nMem + nDisk + nPlant + nFam:
+			lap("C-family")
+		case nMem + nDisk + nPlant + nFam + nNamesMem + nNamesDisk:
+			lap("E-names")
 		}
 		if run.Only >= 0 && i != run.Only {
 			continue
 		}
 		r := rnd.Fork(uint64(i))
+		if i >= nMem+nDisk+nPlant+nFam {
+			j := i - (nMem + nDisk + nPlant + nFam)
+			dir := filepath.Join(tmpRoot, strconv.Itoa(i))
+			switch {
+			case j < nNamesMem:
+				run.Count("names:mem")
+				imageCaseOpt(run, i, r, namesMemWorkspace(r), dir, caseOpt{derived: true})
+			case j < nNamesMem+nNamesDisk:
+				run.Count("names:disk")
+				if c := selectionCase(run, i, r, namesDiskWorkspace(r), dir, true); c != nil {
+					c.decorate = j - nNamesMem
+					cliCases = append(cliCases, c)
+				}
+			default:
+				k := j - nNamesMem - nNamesDisk
+				if c := selectionCase(run, i, r, selWorkspace(r, k), dir, k%3 == 0); c != nil {
+					if k%5 == 0 {
+						c.decorate = k / 5
+					}
+					cliCases = append(cliCases, c)
+				}
+			}
+			continue
+		}
 		if i >= nMem+nDisk+nPlant {
 			// Section C: the stratified import-statement family (family.go)
 			ws := famWorkspace(run, r, i-(nMem+nDisk+nPlant))
@@ -335,11 +368,92 @@ func main() {
 		}
 		imageCase(run, i, r, ws, filepath.Join(tmpRoot, strconv.Itoa(i)))
 	}
-	lap("C-family")
+	lap("F-selection")
+	// sections E / F through the real binary (targeting.go)
+	cliSection(run, rnd.Fork(0xc11), cliCases)
+	lap("EF-binary")
 	// Section D: the real binary, `buf build -o` in every form (binary.go)
 	binarySection(run, rnd.Fork(0xb1a), filepath.Join(run.OutDir, "bin"), total)
 	lap("D-binary")
 	os.RemoveAll(tmpRoot)
+	os.RemoveAll(filepath.Join(run.OutDir, "bufbin"))
+}
+
+// selectionCase: one workspace on disk with a workspace-level selection (sections E-disk and F):
+// in process through buftarget + bufworkspace (`wst` line), and - when cli is set - handed back
+// for the runs through the real binary.
+func selectionCase(run *hx.Run, idx int, r *hx.Rand, ws *wsgen.WS, dir string, cli bool) *cliCase {
+	resolved, class := resolveSelection(ws)
+	run.Count(fmt.Sprintf("selection:%s:modules=%d:paths=%d:excludes=%d", ws.Kind, len(ws.Added), min(len(ws.Sel.Paths), 3), min(len(ws.Sel.Excludes), 3)))
+	if ws.Sel.Input != "." {
+		run.Count("selection:input-is-subdirectory")
+	}
+	// excludes that lie in a module receiving no --path: the shape of seed C01-m10
+	if class == "ok" && len(ws.Sel.Paths) > 0 {
+		for i := range resolved.Added {
+			a := &resolved.Added[i]
+			if a.Target {
+				continue
+			}
+			for _, e := range ws.Sel.Excludes {
+				if strings.HasPrefix(e, a.Dir+"/") {
+					run.Count("selection:exclude-in-untargeted-module")
+				}
+			}
+		}
+	}
+	c := &cliCase{idx: idx, ws: ws, resolved: resolved, class: class, dir: dir}
+	imageCaseOpt(run, idx, r, ws, dir, caseOpt{prefix: selLinePrefix(ws), resolved: resolved, class: class, keepDir: cli, derived: false,
+		onExpect: func(e *expectation) { c.e = e }})
+	if !cli {
+		return nil
+	}
+	if class == "ok" && c.e == nil {
+		// the in-process run did not get as far as an expectation; compute it from the oracle's reading
+		sel := map[string]*wsgen.Added{}
+		for i := range resolved.Added {
+			sel[resolved.Added[i].OID()] = &resolved.Added[i]
+		}
+		c.e = expect(sel)
+	}
+	return c
+}
+
+// valueBelowFile returns a selection value of a disk workspace that lies strictly below a file.
+func valueBelowFile(ws *wsgen.WS) string {
+	if ws.Kind == "mem" {
+		return ""
+	}
+	var vals []string
+	if ws.Sel != nil {
+		vals = append(append(vals, ws.Sel.Paths...), ws.Sel.Excludes...)
+	} else {
+		for i := range ws.Added {
+			for _, v := range append(append([]string{}, ws.Added[i].Paths...), ws.Added[i].Excludes...) {
+				vals = append(vals, joinDir(ws.Added[i].Dir, v))
+			}
+		}
+	}
+	for _, v := range vals {
+		for i := range ws.Added {
+			for _, f := range ws.Added[i].Files {
+				if strings.HasPrefix(v, joinDir(ws.Added[i].Dir, f.Path)+"/") {
+					return v
+				}
+			}
+		}
+	}
+	return ""
+}
+
+func targetDirs(ws *wsgen.WS) []string {
+	var out []string
+	for i := range ws.Added {
+		if ws.Added[i].Target {
+			out = append(out, ws.Added[i].Dir)
+		}
+	}
+	return out
 }
 
 func build(ws *wsgen.WS, dir string) (*wsgen.Built, error) {
@@ -349,12 +463,37 @@ func build(ws *wsgen.WS, dir string) (*wsgen.Built, error) {
 	return ws.BuildDisk(ctx, dir)
 }
 
+// caseOpt: what differs between the sections that go through imageCase.
+type caseOpt struct {
+	prefix   string    // protocol line prefix; "" = "img\t"
+	resolved *wsgen.WS // the oracle's reading of a workspace-level selection (nil: ws itself)
+	class    string    // expected outcome of that selection: ok | user | notargets ("" = no selection)
+	keepDir  bool      // the directory is needed afterwards (real-binary runs)
+	derived  bool      // always run the derived-image checks
+	onExpect func(e *expectation)
+}
+
 func imageCase(run *hx.Run, idx int, r *hx.Rand, ws *wsgen.WS, dir string) {
+	imageCaseOpt(run, idx, r, ws, dir, caseOpt{})
+}
+
+func imageCaseOpt(run *hx.Run, idx int, r *hx.Rand, ws *wsgen.WS, dir string, opt caseOpt) {
 	k := r.Intn(7)
-	line := "img\t" + ws.Line() + "\t" + strconv.Itoa(k)
+	if opt.prefix == "" {
+		opt.prefix = "img\t"
+	}
+	ows := ws // the workspace as the oracle reads it
+	if opt.resolved != nil {
+		ows = opt.resolved
+	}
+	line := opt.prefix + ws.Line() + "\t" + strconv.Itoa(k)
 	replay := fmt.Sprintf("build/c01 --seed %d --tier %s --only %d --out /tmp/c01-replay", run.Seed, run.Tier, idx)
 	fail := func(class, what string) {
-		run.Fail(hx.OracleFailure{Class: class, What: what, Input: map[string]any{"kind": ws.Kind, "line": line, "added": ws.Added}, Replay: replay})
+		in := map[string]any{"kind": ws.Kind, "line": line, "added": ows.Added}
+		if ws.Sel != nil {
+			in["selection"] = ws.Sel
+		}
+		run.Fail(hx.OracleFailure{Class: class, What: what, Input: in, Replay: replay})
 	}
 	defer func() {
 		if p := recover(); p != nil {
@@ -362,10 +501,35 @@ func imageCase(run *hx.Run, idx int, r *hx.Rand, ws *wsgen.WS, dir string) {
 		}
 	}()
 	b, err := build(ws, dir)
-	if ws.Kind != "mem" {
+	if ws.Kind != "mem" && !opt.keepDir {
 		defer os.RemoveAll(dir)
 	}
 	run.Count("kind:" + ws.Kind)
+	if opt.class != "" {
+		// a workspace-level selection: whether the module set may be built at all is part of the case
+		run.Count("selection:expect:" + opt.class)
+		got := "ok"
+		if err != nil {
+			got = buildErrClass(err)
+		}
+		switch {
+		case got == "sys":
+			fail("targeting-system-error", fmt.Sprintf("the selection ended in a system error: %v", err))
+		case opt.class == "ok" && err != nil:
+			fail("valid-selection-fails", fmt.Sprintf("a valid selection (some module is targeted, no flag contradicts another) was rejected: %v", err))
+		case opt.class != "ok" && err == nil:
+			if opt.class == "user" {
+				fail("invalid-selection-accepted", "the flags contradict each other or name the input / a module root, but the workspace was built")
+			}
+			// notargets: BuildImage below must refuse
+		case opt.class != got:
+			fail("selection-error-differs", fmt.Sprintf("expected a %q failure, got %q: %v", opt.class, got, err))
+		}
+		if err != nil {
+			run.Case(line, "err/"+got, false)
+			return
+		}
+	}
 	if err != nil {
 		run.Count("moduleset-err:" + ws.Kind)
 		if ws.Kind == "mem" {
@@ -376,8 +540,18 @@ func imageCase(run *hx.Run, idx int, r *hx.Rand, ws *wsgen.WS, dir string) {
 	}
 	// the compiler parameter of the model: unused-import warnings of an independent protocompile
 	// run over the same sources with the same roots
-	sel := selected(ws, b)
+	sel := selected(ows, b)
 	e := expect(sel)
+	if opt.class != "" && len(sel) != len(b.ModuleSet.Modules()) {
+		var got []string
+		for _, m := range b.ModuleSet.Modules() {
+			got = append(got, fmt.Sprintf("%s target=%v", m.OpaqueID(), m.IsTarget()))
+		}
+		fail("targeting-module-set-differs", fmt.Sprintf("the modules of the built workspace are %v; by path components the targeted modules are %v", got, targetDirs(ows)))
+	}
+	if opt.onExpect != nil && len(sel) == len(b.ModuleSet.Modules()) {
+		opt.onExpect(e)
+	}
 	unusedByFile := map[string]map[string]bool{}
 	var want map[string]*descriptorpb.FileDescriptorProto
 	var cerr error
@@ -397,10 +571,21 @@ func imageCase(run *hx.Run, idx int, r *hx.Rand, ws *wsgen.WS, dir string) {
 			}
 		}
 	}
-	line = "img\t" + ws.Line() + "\t" + strconv.Itoa(k)
+	line = opt.prefix + ws.Line() + "\t" + strconv.Itoa(k)
 	img, berr, hung := wsgen.BuildImageWatchdog(ctx, b.ModuleSet)
 	if hung {
 		fail("build-hang", "bufimage.BuildImage did not return within 20s")
+		return
+	}
+	if berr != nil && strings.Contains(berr.Error(), "not a directory") && valueBelowFile(ws) != "" {
+		// GENUINE defect of the unchanged tree (proposed known finding / fix, handoff/strengthen6-A.md):
+		// a --path / --exclude-path value that names something BELOW A REGULAR FILE does not exist,
+		// like any other missing path, but storageos.Walk answers ENOTDIR instead of "nothing there"
+		// and the whole build fails.  The model describes the repaired behaviour (a missing path
+		// selects nothing), so no protocol line is written for the witness.
+		fail("path-below-a-file-fails", fmt.Sprintf("the selection value %q names a path below a regular file (it does not exist, like any other missing path), but the build fails: %v", valueBelowFile(ws), berr))
+		run.Count("skipped:path-below-a-file")
+		run.Eval()
 		return
 	}
 	var impl string
@@ -516,7 +701,12 @@ func imageCase(run *hx.Run, idx int, r *hx.Rand, ws *wsgen.WS, dir string) {
 		return
 	}
 	compareDescriptors(run, fail, want, img)
-	wireChecks(run, fail, ws, e, unusedByFile, img, want)
+	wireChecks(run, fail, ows, e, unusedByFile, img, want)
+	// every image derived from this one stays closed and ordered (derived.go); always when a file
+	// lists an import the compiler flagged as unused
+	if dr := r.Fork(0xd371); opt.derived || hasUnusedShape(img) || dr.Chance(1, 4) {
+		derivedChecks(run, fail, dr, img)
+	}
 	if r.Chance(1, 4) {
 		imgNo, nerr, hung := wsgen.BuildImageWatchdog(ctx, b.ModuleSet, bufimage.WithExcludeSourceCodeInfo())
 		switch {
